@@ -633,6 +633,13 @@ class Node:
                 deep = True
             # Work on a copy: never modify the child list of the source tree
             topnodes = list(child._root.children)
+            # Check the unique constraint for all nodes before adding the first
+            own_ids = {n._data_id for n in self.children}
+            for n in topnodes:
+                if n._data_id in own_ids:
+                    raise UniqueConstraintError(
+                        f"Node.data already exists in parent: {n}"
+                    )
             if isinstance(before, int) and before is not False:
                 # True or index: all nodes are inserted at the same position,
                 # so iterate backwards to maintain the order
